@@ -7,8 +7,15 @@ pub uninterp spec fn pv(p: &Path) -> PV;
 pub uninterp spec fn pbv(p: &PathBuf) -> PV;
 /// abstract: does this path have a parent (false for the empty path, a root, a prefix)
 pub uninterp spec fn pv_has_parent(v: PV) -> bool;
-pub broadcast axiom fn axiom_has_parent_nonempty(v: PV)
-    requires #[trigger] pv_has_parent(v) ensures v.len() > 0;
+pub mod path_ax {
+    use super::*;
+    pub broadcast axiom fn axiom_has_parent_nonempty(v: PV)
+        requires #[trigger] pv_has_parent(v) ensures v.len() > 0;
+    pub broadcast axiom fn axiom_str_as_path(s: &str)
+        requires s@ == conftest_name()
+        ensures #[trigger] as_path_view::<&str>(s) == seq![s@];
+}
+pub use path_ax::*;
 
 pub assume_specification<'a>[ Path::parent ](p: &'a Path) -> (r: Option<&'a Path>)
     ensures match r { Some(q) => pv_has_parent(pv(p)) && pv(p).len() > 0 && pv(q) == pv(p).drop_last(),
@@ -16,9 +23,6 @@ pub assume_specification<'a>[ Path::parent ](p: &'a Path) -> (r: Option<&'a Path
 
 pub uninterp spec fn as_path_view<P>(s: P) -> PV;
 pub open spec fn conftest_name() -> Seq<char> { "conftest.py"@ }
-pub broadcast axiom fn axiom_str_as_path(s: &str)
-    requires s@ == conftest_name()
-    ensures #[trigger] as_path_view::<&str>(s) == seq![s@];
 #[verifier::allow(undeclared_external_trait)]
 pub assume_specification<P: AsRef<Path>>[ Path::join::<P> ](p: &Path, s: P) -> (r: PathBuf)
     ensures pbv(&r) == pv(p) + as_path_view(s);
